@@ -135,3 +135,165 @@ theorem simpleLines_sum (cur : String) (c : ℕ) (rates : List XRate) (ls ls' : 
 
 end Calc
 end GoblVerif
+
+namespace GoblVerif
+open GoblVerif.Spec GoblVerif.Calc
+namespace Calc
+
+/-! ### document discounts and charges given as percentages -/
+
+/-- a document discount/charge that is a percentage of the document sum, at most 100 % in magnitude -/
+def PctOnly (x : DocAdj) : Prop :=
+  ∃ p, x.percent = some p ∧ pctIsZero p = false ∧ x.base = none ∧ |p.amount.toRat| ≤ 1
+
+/-- its percentage as a rational -/
+def pctQ (x : DocAdj) : ℚ :=
+  match x.percent with
+  | some p => p.amount.toRat
+  | none => 0
+
+theorem docAdj_pct (c : ℕ) (sum : Amount) (x : DocAdj) (hx : PctOnly x) (hs : c ≤ sum.exp) :
+    (docAdj exactOps .precise c sum x).amount.exp = sum.exp ∧
+    |(docAdj exactOps .precise c sum x).amount.toRat - sum.toRat * pctQ x| ≤ halfUlp sum.exp := by
+  obtain ⟨p, hp, hz, hb, _⟩ := hx
+  have hval : (docAdj exactOps .precise c sum x).amount = sum.mulX p.amount := by
+    simp only [docAdj, hp, hz, hb, applyRule, pctOf, exact_mul, Bool.false_eq_true, if_false]
+    exact up_self _ c (by rw [mulX_exp]; exact hs)
+  rw [hval]
+  refine ⟨rfl, ?_⟩
+  have := mulX_err sum p.amount
+  simpa [pctQ, hp] using this
+
+theorem foldl_accum_exp_le (xs : List Amount) (z : Amount) (e : ℕ) (hz : z.exp ≤ e) (hx : ∀ x ∈ xs, x.exp ≤ e) :
+    (xs.foldl (accum exactOps) z).exp ≤ e := by
+  induction xs generalizing z with
+  | nil => simpa
+  | cons x xs ih =>
+    rw [List.foldl_cons]
+    apply ih
+    · rw [accum_exp]
+      have := hx x (by simp)
+      omega
+    · intro y hy; exact hx y (by simp [hy])
+
+/-- the rational value of an optional total (absent = 0) -/
+def optQ (o : Option Amount) : ℚ := (o.map Amount.toRat).getD 0
+
+theorem adjSum_pct (c : ℕ) (sum : Amount) (xs : List DocAdj) (hx : ∀ x ∈ xs, PctOnly x) (hs : c ≤ sum.exp) :
+    (∀ s, adjSum exactOps c (xs.map (docAdj exactOps .precise c sum)) = some s → s.exp ≤ sum.exp) ∧
+    |optQ (adjSum exactOps c (xs.map (docAdj exactOps .precise c sum))) - sum.toRat * (xs.map pctQ).sum| ≤
+      xs.length * halfUlp sum.exp := by
+  constructor
+  · intro s h
+    unfold adjSum at h
+    split at h
+    · simp at h
+    · injection h with h
+      rw [← h]
+      apply foldl_accum_exp_le _ _ _ hs
+      intro y hy
+      simp only [List.mem_map] at hy
+      obtain ⟨a, ha, rfl⟩ := hy
+      obtain ⟨x, hxm, rfl⟩ := ha
+      exact le_of_eq (docAdj_pct c sum x (hx x hxm) hs).1
+  · have hq : optQ (adjSum exactOps c (xs.map (docAdj exactOps .precise c sum))) =
+        ((xs.map (docAdj exactOps .precise c sum)).map (·.amount.toRat)).sum := by
+      unfold optQ adjSum
+      split
+      · rename_i he
+        have : xs.map (docAdj exactOps .precise c sum) = [] := by simpa using he
+        simp [this]
+      · simp only [Option.map_some, Option.getD_some]
+        rw [foldl_accum_toRat]
+        simp [Amount.toRat, List.map_map, Function.comp_def]
+    rw [hq]
+    clear hq
+    induction xs with
+    | nil => simp
+    | cons x xs ih =>
+      have h1 := (docAdj_pct c sum x (hx x (by simp)) hs).2
+      have h2 := ih (fun y hy => hx y (by simp [hy]))
+      simp only [List.map_cons, List.sum_cons, List.length_cons]
+      have : (docAdj exactOps .precise c sum x).amount.toRat +
+            ((xs.map (docAdj exactOps .precise c sum)).map (·.amount.toRat)).sum - sum.toRat * (pctQ x + (xs.map pctQ).sum) =
+          ((docAdj exactOps .precise c sum x).amount.toRat - sum.toRat * pctQ x) +
+          (((xs.map (docAdj exactOps .precise c sum)).map (·.amount.toRat)).sum - sum.toRat * (xs.map pctQ).sum) := by ring
+      rw [this]
+      refine le_trans (abs_add_le _ _) ?_
+      push_cast
+      linarith
+
+theorem pctQ_sum_abs (xs : List DocAdj) (hx : ∀ x ∈ xs, PctOnly x) : |(xs.map pctQ).sum| ≤ xs.length := by
+  induction xs with
+  | nil => simp
+  | cons x xs ih =>
+    obtain ⟨p, hp, _, _, hle⟩ := hx x (by simp)
+    have h1 : |pctQ x| ≤ 1 := by simpa [pctQ, hp] using hle
+    have h2 := ih (fun y hy => hx y (by simp [hy]))
+    simp only [List.map_cons, List.sum_cons, List.length_cons]
+    refine le_trans (abs_add_le _ _) ?_
+    push_cast
+    linarith
+
+end Calc
+end GoblVerif
+
+namespace GoblVerif
+open GoblVerif.Spec GoblVerif.Calc
+namespace Calc
+
+theorem simpleLine_total_exp (cur : String) (c : ℕ) (rates : List XRate) (l l' : Line) (hs : SimpleLine l)
+    (h : calcLine exactOps cur c rates .precise l = .ok l') :
+    ∃ t, l'.total = some t ∧ c + 2 ≤ t.exp := by
+  obtain ⟨it, p, hit, hcur, hp, hbd, hd, hc⟩ := hs
+  unfold calcLine at h
+  simp only [hit, hbd, calcSubLines, List.isEmpty_nil, Bool.true_or, if_true, hp] at h
+  unfold itemPrice at h
+  simp only [hcur, BEq.rfl, Bool.true_or, if_true] at h
+  simp only [show (Rule.precise == Rule.precise) = true from rfl, if_true, Option.getD_some, hd, hc,
+    lineDiscounts, lineCharges] at h
+  injection h with h
+  subst h
+  refine ⟨_, rfl, ?_⟩
+  simp only [applyRule, up_exp, exact_mul, mulX_exp, E]
+  omega
+
+theorem foldl_accum_exp_ge_mem (xs : List Amount) (z : Amount) (x : Amount) (hx : x ∈ xs) :
+    x.exp ≤ (xs.foldl (accum exactOps) z).exp := by
+  induction xs generalizing z with
+  | nil => simp at hx
+  | cons y ys ih =>
+    rw [List.foldl_cons]
+    simp only [List.mem_cons] at hx
+    rcases hx with rfl | hx
+    · have := foldl_accum_exp_ge ys (accum exactOps z x)
+      rw [accum_exp] at this
+      omega
+    · exact ih _ hx
+
+/-- with at least one simple line the document sum carries the working precision -/
+theorem simpleLines_sum_exp (cur : String) (c : ℕ) (rates : List XRate) (ls ls' : List Line)
+    (hs : ∀ l ∈ ls, SimpleLine l) (hne : ls ≠ []) (h : calcLines exactOps cur c rates .precise ls = .ok ls') :
+    c + 2 ≤ (lineSum exactOps c ls').exp := by
+  cases ls with
+  | nil => exact absurd rfl hne
+  | cons l ls =>
+    simp only [calcLines] at h
+    cases h1 : calcLine exactOps cur c rates .precise l with
+    | error e => simp [h1] at h
+    | ok l' =>
+      cases h2 : calcLines exactOps cur c rates .precise ls with
+      | error e => simp [h1, h2] at h
+      | ok ls'' =>
+        simp only [h1, h2] at h
+        injection h with h
+        subst h
+        obtain ⟨t, ht, hte⟩ := simpleLine_total_exp cur c rates l l' (hs l (by simp)) h1
+        unfold lineSum
+        have hm : t ∈ (l' :: ls'').filterMap (·.total) := by
+          simp [List.filterMap_cons, ht]
+        have := foldl_accum_exp_ge_mem _ ⟨0, c⟩ t hm
+        omega
+
+end Calc
+end GoblVerif
